@@ -172,15 +172,20 @@ parsec_arena_release_chunk(parsec_arena_t* arena,
 {
     TRACE_FREE(arena_memory_unused_key, -arena->elem_size*chunk->count, chunk);
 
-    if( (chunk->count == 1) && (arena->released < arena->max_released) ) {
-        PARSEC_DEBUG_VERBOSE(10, parsec_debug_output, "Arena:\tpush a data of size %zu from arena %p, aligned by %zu, base ptr %p, data ptr %p, sizeof prefix %zu(%zd)",
-                arena->elem_size, arena, arena->alignment, chunk, chunk->data, sizeof(parsec_arena_chunk_t),
-                PARSEC_ARENA_MIN_ALIGNMENT(arena->alignment));
-        if(arena->max_released != INT32_MAX) {
-            (void)parsec_atomic_fetch_inc_int32(&arena->released);
+    if( (chunk->count == 1) && (arena->max_released > 0) ) {
+        /* Reserve a slot of the cache before pushing: the test and the increment
+         * must be a single atomic operation, otherwise concurrent releases all
+         * pass the test before any of them increments and the cache exceeds
+         * max_released. A failed reservation is undone and the chunk is freed. */
+        if( (arena->max_released == INT32_MAX) ||
+            (parsec_atomic_fetch_inc_int32(&arena->released) < arena->max_released) ) {
+            PARSEC_DEBUG_VERBOSE(10, parsec_debug_output, "Arena:\tpush a data of size %zu from arena %p, aligned by %zu, base ptr %p, data ptr %p, sizeof prefix %zu(%zd)",
+                    arena->elem_size, arena, arena->alignment, chunk, chunk->data, sizeof(parsec_arena_chunk_t),
+                    PARSEC_ARENA_MIN_ALIGNMENT(arena->alignment));
+            parsec_lifo_push(&arena->area_lifo, &chunk->item);
+            return;
         }
-        parsec_lifo_push(&arena->area_lifo, &chunk->item);
-        return;
+        (void)parsec_atomic_fetch_dec_int32(&arena->released);
     }
     PARSEC_DEBUG_VERBOSE(10, parsec_debug_output, "Arena:\tdeallocate a tile of size %zu x %zu from arena %p, aligned by %zu, base ptr %p, data ptr %p, sizeof prefix %zu(%zd)",
             arena->elem_size, chunk->count, arena, arena->alignment, chunk, chunk->data, sizeof(parsec_arena_chunk_t),
